@@ -27,6 +27,9 @@
 #include <vector>
 
 #include <sanitizer/common_interface_defs.h>
+#include <csignal>
+#include <sys/time.h>
+#include <unistd.h>
 
 #include "common.hpp"
 
@@ -363,10 +366,26 @@ static void on_terminate() {
     std::abort();
 }
 
+// an operation that no longer terminates must not hang the check: 2 s of CPU time per line
+static void on_vtalarm(int) {
+    static const char m[] = "#VIOL hang: an operation used more than 2 s of CPU time\n";
+    ssize_t r = write(1, m, sizeof(m) - 1);
+    (void)r;
+    _exit(3);
+}
+static void arm(long sec) {
+    struct itimerval tv;
+    tv.it_interval.tv_sec = 0; tv.it_interval.tv_usec = 0;
+    tv.it_value.tv_sec = sec; tv.it_value.tv_usec = 0;
+    setitimer(ITIMER_VIRTUAL, &tv, nullptr);
+}
+
 static int run() {
     std::string line;
     Buf H, N;
+    std::signal(SIGVTALRM, on_vtalarm);
     while (std::getline(std::cin, line)) {
+        arm(2);
         std::vector<std::string> t = vh::tokens(line);
         if (t.empty()) { vh::answer(""); continue; }
         if (t[0] == "case") { vh::answer("case"); continue; }
